@@ -81,7 +81,7 @@ def connect_history(rng, cfg):
         for _ in range(rng.choice([0, 1, 1, 2, 3])):
             if rng.random() < 0.4:
                 rq()
-            now += rng.choice([0, 1, 2])
+            now += rng.choice([0, 1, 2, 2, 70])
             ops.append('op wpass 0 %d %s putfail' % (now, pipeline.rnd40(rng)))
         ops.append('op connend 0')
         now += rng.choice([0, 1])
@@ -92,6 +92,19 @@ def connect_history(rng, cfg):
     if rng.random() < 0.5:
         ops.append('op sreply 0 %d %d %s 2 - 80:auto' % ((idc - 1) % 256, now, pipeline.rnd40(rng)))
     return ops
+
+def conn_cases(rng, n):
+    def modstream(rng, cfg):
+        for s in cfg.servers:
+            s.statsrv = rng.choice([0, 0, 1, 2, 3])
+            s.type = pipeline.T_TCP
+            s.retrycount = rng.choice([None, 0])
+            s.retryint = rng.choice([None, 5, 30, 60])
+        for r in cfg.realms:
+            r.srv = [0]; r.acc = [0]
+        for c in cfg.clients:
+            c.dupint = None; c.reqma = False; c.reqmap = False
+    return pipeline.guided_cases(rng, n, connect_history, 'conn', rich=False, cfgmod=modstream)
 
 def generate(rng, tier):
     def modstream(rng, cfg):
